@@ -428,15 +428,19 @@ class DomLoadActor(Actor):
             if via == 'from_bytes':
                 self.tree = L.DiffX.from_bytes(self.data)
             else:
-                rea = None
+                rea = sea = None
 
                 for x in world.scn.get('faults', ()):
                     if x['kind'] == 'read_error' and \
                        x.get('reader', self.id) == self.id:
                         rea = int(x['call'])
+                    elif x['kind'] == 'seek_error' and \
+                            x.get('reader', self.id) == self.id:
+                        sea = int(x['call'])
 
                 self.handle = SimReadHandle(world, self.data, self.id,
-                                            read_error_at=rea)
+                                            read_error_at=rea,
+                                            seek_error_at=sea)
                 self.tree = L.DiffX.from_stream(self.handle)
 
             self.end = 'ok'
